@@ -1039,5 +1039,31 @@ func vfC05Capacity(s *vfC05Sink) {
 			}
 		}
 	}
+	// reopened-session family: attributes in compact (3) or dense (12) storage, the session
+	// ended and the file opened again for writing (handles re-acquired: they cache the parsed
+	// header and take their own write paths), then size-changing and same-size overwrites, an
+	// insert and a delete through the reopened handle
+	for _, sb := range []uint8{2, 0, 3} {
+		for _, n := range []int{3, 12} {
+			for _, tail := range [][]vfOp{
+				{{Op: "attr", Path: "/x", Name: "n01", Value: "s120"}},
+				{{Op: "attr", Path: "/x", Name: "n00", Value: "i64b"}},
+				{{Op: "attr", Path: "/x", Name: "n01", Value: "s120"}, {Op: "attr", Path: "/x", Name: "fresh", Value: "i32a"}},
+				{{Op: "delattr", Path: "/x", Name: "n02"}, {Op: "attr", Path: "/x", Name: "n01", Value: "s1"}},
+				{{Op: "attr", Path: "/x", Name: "fresh", Value: "f64x3"}, {Op: "delattr", Path: "/x", Name: "n00"}},
+			} {
+				h := []vfOp{{Op: "mkds", Path: "/x", Type: "f64", Dims: []uint64{4}}, {Op: "write", Path: "/x", Pat: 1}}
+				for i := 0; i < n; i++ {
+					h = append(h, vfOp{Op: "attr", Path: "/x", Name: fmt.Sprintf("n%02d", i), Value: []string{"i64", "s40", "f32"}[i%3]})
+				}
+				h = append(h, vfOp{Op: "reopen"})
+				h = append(h, tail...)
+				cfg := fmt.Sprintf("sb%d/reopened-session(attributes=%d): %s", sb, n, vfOpsString(tail))
+				c := vfC05SeqCase(cfg, sb, h, 0)
+				c.name = "capacity " + cfg
+				cases = append(cases, c)
+			}
+		}
+	}
 	vkit.ParallelFor(len(cases), func(i int) { s.exec("capacity", cases[i]) })
 }
